@@ -75,7 +75,7 @@ def eligible(crate, callee, index, depth=0, seen=None):
     ok = True
     if callee.kind not in ("Fn", "AssocFn") or callee.impl_trait is not None:
         ok = False
-    elif callee.path in PROTECTED or callee.path != callee.root:
+    elif callee.path.split("::")[-1] in PROTECTED or callee.path != callee.root:
         ok = False
     elif len(callee.blocks) > MAX_BLOCKS:
         ok = False
@@ -204,6 +204,44 @@ def _subst_type(crate, ti, mapping, memo):
     return res
 
 
+def _xlate_type(src, dst, ti, mapping, memo):
+    """type index `ti` of crate `src` expressed in crate `dst`'s type table, with the callee's type parameters replaced"""
+    key = ti
+    if key in memo:
+        return memo[key]
+    t = src.types[ti]
+    k = t["k"]
+    if k == "param" and t.get("n") in mapping:
+        memo[key] = mapping[t["n"]]
+        return memo[key]
+    new = dict(t)
+    if k in ("ref", "slice", "array") and "t" in t:
+        new["t"] = _xlate_type(src, dst, t["t"], mapping, memo)
+    elif k == "tuple":
+        new["ts"] = [_xlate_type(src, dst, x, mapping, memo) for x in t.get("ts", [])]
+    elif k in ("adt", "alias", "fndef") and t.get("args"):
+        new["args"] = [_xlate_type(src, dst, x, mapping, memo) if isinstance(x, int) else x for x in t["args"]]
+    elif k == "closure" and t.get("upvars"):
+        new["upvars"] = [_xlate_type(src, dst, x, mapping, memo) if isinstance(x, int) else x for x in t["upvars"]]
+    new["s"] = _subst_text(t["s"], {name: dst.types[to]["s"] for name, to in mapping.items()})
+    # reuse an identical entry of the destination table when there is one
+    cache = getattr(dst, "_type_by_s", None)
+    if cache is None:
+        cache = {}
+        for i, x in enumerate(dst.types):
+            cache.setdefault((x["k"], x["s"]), i)
+        dst._type_by_s = cache
+    hit = cache.get((new["k"], new["s"]))
+    if hit is not None:
+        memo[key] = hit
+        return hit
+    dst.types.append(new)
+    idx = len(dst.types) - 1
+    cache[(new["k"], new["s"])] = idx
+    memo[key] = idx
+    return idx
+
+
 def _retype(obj, f, names=None):
     """apply f to every type index inside a copied JSON fragment; printed paths of function constants are
     rewritten textually (`<T as Deserr<E>>::..` -> `<A as Deserr<E>>::..`)"""
@@ -254,19 +292,25 @@ def inline_body(crate, body, index, depth=0, force=None):
         if t["k"] != "call" or t.get("target") is None:
             continue
         fn = _fn_of(t)
-        if fn is None or fn.get("krate") != crate.name:
+        if fn is None:
             continue
-        callee = index.get(fn.get("path"))
-        if callee is None or callee.path == body.path:
+        cpath = fn.get("path") or ""
+        if fn.get("krate") != crate.name:
+            # generated code of a user crate calling a run-time helper of the library
+            if fn.get("krate") != "deserr" or not cpath.startswith("deserr::"):
+                continue
+            cpath = cpath[len("deserr::"):]
+        callee = index.get(cpath)
+        if callee is None or (callee.path == body.path and callee.crate is crate):
             continue
-        if not (force(callee) if force is not None else eligible(crate, callee, index)):
+        if not (force(callee) if force is not None else eligible(callee.crate, callee, index)):
             continue
         if depth >= MAX_DEPTH:
             continue
         if len(t["args"]) != callee.arg_count:
             continue
         # nested helpers first
-        inner, inner_used = inline_body(crate, callee, index, depth + 1, force)
+        inner, inner_used = inline_body(callee.crate, callee, index, depth + 1, force)
         src = inner if inner is not None else callee
         if d is None:
             d = copy.deepcopy(body.d)
@@ -284,8 +328,11 @@ def inline_body(crate, body, index, depth=0, force=None):
         if len(gnames) == len(gargs):
             mapping = dict(zip(gnames, gargs))
         memo = {}
+        foreign = callee.crate is not crate
 
-        def ty(i, _m=mapping, _memo=memo):
+        def ty(i, _m=mapping, _memo=memo, _src=callee.crate, _foreign=foreign):
+            if _foreign:
+                return _xlate_type(_src, crate, i, _m, _memo)
             return _subst_type(crate, i, _m, _memo) if _m else i
         new_locals = copy.deepcopy(src.locals)
         for l in new_locals:
@@ -295,7 +342,7 @@ def inline_body(crate, body, index, depth=0, force=None):
         new_blocks = copy.deepcopy(src.blocks)
         for nb in new_blocks:
             _map_block(nb, loff, boff)
-            if mapping:
+            if mapping or foreign:
                 _retype(nb, ty, {n_: crate.types[i_]["s"] for n_, i_ in mapping.items() if crate.types[i_]["s"] != n_})
             nb["inlined_from"] = callee.path
         # returns -> hand the value over and continue after the call
@@ -681,7 +728,7 @@ def expand_local_helpers(crate, body, keep=()):
         _INDEX[id(crate)] = idx
 
     def helper(callee):
-        if callee.kind != "Fn" or callee.impl_trait is not None or callee.path in keep or callee.path in PROTECTED:
+        if callee.kind not in ("Fn", "AssocFn") or callee.impl_trait is not None or callee.path in keep or callee.path.split("::")[-1] in PROTECTED:
             return False
         if callee.path != callee.root or len(callee.blocks) > MAX_BLOCKS:
             return False
